@@ -1,7 +1,24 @@
 /-
 Spec.Refactor — normal-form lemmas and the tactic `py_equiv` used by the equivalence rescue (vlib/baseline.py):
 when a contract no longer type-checks because a function of /repo was restructured, the check tries to prove that the
-newly extracted function equals the baseline text. The lemmas here relate equivalent Python idioms in the model.
+newly extracted function equals the baseline text. The lemmas here relate equivalent Python idioms in the model; all of them
+are general facts about the PyModel operations (nothing mentions TUCAN), proved for all arguments.
+
+Strategy of `py_equiv [callee equalities]` (both sides are normalised independently by one `simp only` set, `py_norm`):
+ * monad laws (`bind_assoc`, `pure_bind`, conditionals distributed over `>>=`); `simp` itself inlines `let`/`have` and turns
+   irrefutable tuple patterns into projections;
+ * comprehensions (`listComp`) and `for` loops whose state is a list/string that every iteration only appends to
+   (`forIn_append_only`, side condition proved by the simplifier) become `flatComp xs F` = concatenation of one chunk per element;
+   a loop that only stores into a dict becomes `Dict.updatePairs` of a `flatComp` of pairs (`forIn_store_only`);
+ * `"".join` is `List.flatten`; a list of strings that is only looked at through its concatenation is never built
+   (`flatComp_bind_flatten`);
+ * comprehensions with a pure body are `flatMap`/`map`; consecutive comprehensions fuse (`flatComp_pure`, `flatComp_flatMap`);
+ * `range(len(xs))` + `xs[i]` is `enumerate(xs)`; an unused `enumerate` index disappears;
+ * `startswith`/`endswith` are slice comparisons; `<=`, `>=`, `!=`, `>` are spelled with `<`, `==`, `not`; emptiness tests
+   (`len(x) == 0`, `x == ""`, `x == []`, `n == 0`) are spelled with `truthy`; integer `+`/`*` are AC-normalised.
+What normalisation leaves is attacked by a structural descent (`py_descend`): two loops over the same list with the same
+state type whose bodies agree up to what happens at `break` versus after the loop (`forIn_bind_congr_cont`: `while True … break`
+versus `while cond`, both extracted as fuel loops that consume fuel identically).
 -/
 import PyModel.Ops
 set_option autoImplicit false
@@ -189,6 +206,122 @@ theorem endswith_eq_slice (s : Str) (c : Char) (cs : Str) :
   rw [e]
   exact eq_comm
 
+/-! ### loops that only store into a dict: `Dict.updatePairs` of a `flatComp` of key/value pairs -/
+
+theorem Dict.updatePairs_nil {κ ν} [DecidableEq κ] (d : Dict κ ν) : d.updatePairs [] = d := rfl
+theorem Dict.updatePairs_cons {κ ν} [DecidableEq κ] (d : Dict κ ν) (p : κ × ν) (l : List (κ × ν)) :
+    d.updatePairs (p :: l) = (d.set p.1 p.2).updatePairs l := rfl
+theorem Dict.updatePairs_append {κ ν} [DecidableEq κ] (d : Dict κ ν) (l₁ l₂ : List (κ × ν)) :
+    d.updatePairs (l₁ ++ l₂) = (d.updatePairs l₁).updatePairs l₂ := by
+  simp [Dict.updatePairs, List.foldl_append]
+theorem Dict.updatePairs_empty {κ ν} [DecidableEq κ] (l : List (κ × ν)) :
+    (Dict.empty : Dict κ ν).updatePairs l = Dict.ofPairs l := rfl
+theorem Dict.update_eq_updatePairs {κ ν} [DecidableEq κ] (d e : Dict κ ν) : d.update e = d.updatePairs e.items := rfl
+theorem Dict.items_empty {κ ν} : (Dict.empty : Dict κ ν).items = [] := rfl
+theorem Dict.items_set_empty {κ ν} [DecidableEq κ] (k : κ) (v : ν) : ((Dict.empty : Dict κ ν).set k v).items = [(k, v)] := rfl
+
+/-- a `for` loop whose state is a dict and whose iterations only store entries (`d[k] = v`, `d.update(…)`, `d |= …`) whose
+keys and values do not depend on the dict: collect the stored pairs, store them at the end -/
+theorem forIn_store_only {α κ ν} [DecidableEq κ] (xs : List α) (d0 : Dict κ ν) (B : α → Dict κ ν → M (ForInStep (Dict κ ν)))
+    (h : ∀ x d, B x d = B x Dict.empty >>= fun s => pure (ForInStep.yield (d.updatePairs (stepVal s).items))) :
+    forIn xs d0 B = flatComp xs (fun x => B x Dict.empty >>= fun s => pure (stepVal s).items) >>= fun ps => pure (d0.updatePairs ps) := by
+  induction xs generalizing d0 with
+  | nil => simp [flatComp, Dict.updatePairs_nil]
+  | cons x xs ih =>
+    rw [List.forIn_cons, h x d0]
+    simp only [flatComp, bind_assoc, pure_bind, ih]
+    congr 1; funext s; congr 1; funext ys
+    simp only [Dict.updatePairs_append]
+
+/-- `for i in range(len(xs))` reading `xs[i]` first is `for i, v in enumerate(xs)` -/
+theorem forIn_range2_getItem {α σ} (pre xs : List α) (s0 : σ) (B : Int → α → σ → M (ForInStep σ)) :
+    forIn ((List.range' pre.length xs.length).map Int.ofNat) s0 (fun i s => listGet (pre ++ xs) i >>= fun v => B i v s)
+      = forIn (enumerate xs pre.length) s0 (fun p s => B p.1 p.2 s) := by
+  induction xs generalizing pre s0 with
+  | nil => rfl
+  | cons x xs ih =>
+    have h := fun s => ih (pre ++ [x]) s
+    simp only [List.length_append, List.length_cons, List.length_nil, List.append_assoc, List.cons_append, List.nil_append,
+      zero_add] at h
+    simp only [List.length_cons, List.range'_succ, List.map_cons, List.forIn_cons, enumerate_cons]
+    simp only [Int.ofNat_eq_natCast, listGet_append_length, pure_bind]
+    congr 1; funext r
+    cases r with
+    | done b => rfl
+    | yield b => exact h b
+
+theorem forIn_range_getItem {α σ} (xs : List α) (s0 : σ) (B : Int → α → σ → M (ForInStep σ)) :
+    forIn (range (xs.length : Int)) s0 (fun i s => getItem xs i >>= fun v => B i v s)
+      = forIn (enumerate xs (0 : Int)) s0 (fun p s => B p.1 p.2 s) := by
+  have h := forIn_range2_getItem [] xs s0 B
+  simp only [List.length_nil, List.nil_append] at h
+  simpa [range, List.range_eq_range', getItem] using h
+
+/-- `for i, v in enumerate(xs)` whose body does not look at `i` is `for v in xs`. (`B0` is the whole body; the side condition
+says that it does not depend on the index, and is proved by the simplifier when the index does not occur.) -/
+theorem forIn_enumerate_unused {α σ} (xs : List α) (k : Int) (s0 : σ) (B0 : Int × α → σ → M (ForInStep σ))
+    (h : ∀ p s, B0 p s = B0 (0, p.2) s) :
+    forIn (enumerate xs k) s0 B0 = forIn xs s0 (fun v s => B0 (0, v) s) := by
+  induction xs generalizing k s0 with
+  | nil => rfl
+  | cons x xs ih =>
+    simp only [enumerate_cons, List.forIn_cons]
+    rw [h (k, x) s0]
+    congr 1; funext r
+    cases r with
+    | done b => rfl
+    | yield b => exact ih (k + 1) b
+
+theorem flatComp_enumerate_unused {α β} (xs : List α) (k : Int) (F0 : Int × α → M (List β))
+    (h : ∀ p, F0 p = F0 (0, p.2)) :
+    flatComp (enumerate xs k) F0 = flatComp xs (fun v => F0 (0, v)) := by
+  induction xs generalizing k with
+  | nil => rfl
+  | cons x xs ih =>
+    simp only [enumerate_cons, flatComp_cons]
+    rw [h (k, x), ih (k + 1)]
+
+/-! ### small pure identities -/
+theorem Dict.keys_eq {κ ν} (d : Dict κ ν) : d.keys = d.items.map Prod.fst := rfl
+theorem Dict.values_eq {κ ν} (d : Dict κ ν) : d.values = d.items.map Prod.snd := rfl
+theorem getItem_pair_zero {α} (p : α × α) : getItem p (0 : Int) = pure p.1 := rfl
+theorem getItem_pair_one {α} (p : α × α) : getItem p (1 : Int) = pure p.2 := rfl
+theorem getItem_pair_neg_one {α} (p : α × α) : getItem p (-1 : Int) = pure p.2 := rfl
+theorem getItem_pair_neg_two {α} (p : α × α) : getItem p (-2 : Int) = pure p.1 := rfl
+
+/-! ### emptiness tests: one spelling (`truthy`) -/
+theorem pyEq_len_zero {α} (l : List α) : pyEq (l.length : Int) (0 : Int) = !truthy l := by
+  cases l with
+  | nil => rfl
+  | cons a l =>
+    have : ¬ ((l.length : Int) + 1 = 0) := by omega
+    simp [pyEq, PyCmp.eq, truthy, this]
+theorem pyGt_len_zero {α} (l : List α) : pyGt (l.length : Int) (0 : Int) = truthy l := by
+  cases l <;> simp [pyGt, PyCmp.gt, POrd.lt, truthy]
+theorem pyLt_zero_len {α} (l : List α) : pyLt (0 : Int) (l.length : Int) = truthy l := by
+  cases l <;> simp [pyLt, PyCmp.lt, POrd.lt, truthy]
+theorem truthy_len {α} (l : List α) : truthy (l.length : Int) = truthy l := by
+  cases l with
+  | nil => rfl
+  | cons a l =>
+    have : ¬ ((l.length : Int) + 1 = 0) := by omega
+    simp [truthy, this]
+theorem pyEq_int_zero (i : Int) : pyEq i (0 : Int) = !truthy i := by
+  by_cases h : i = 0 <;> simp [pyEq, PyCmp.eq, truthy, h]
+theorem pyEq_zero_int (i : Int) : pyEq (0 : Int) i = !truthy i := by
+  by_cases h : i = 0
+  · simp [pyEq, PyCmp.eq, truthy, h]
+  · have h' : ¬ (0 = i) := fun e => h e.symm
+    simp [pyEq, PyCmp.eq, truthy, h, h']
+theorem pyEq_nil_right {α} [POrd α] [DecidableEq α] (l : List α) : pyEq l ([] : List α) = !truthy l := by
+  cases l <;> simp [pyEq, PyCmp.eq, truthy]
+theorem pyEq_nil_left {α} [POrd α] [DecidableEq α] (l : List α) : pyEq ([] : List α) l = !truthy l := by
+  cases l <;> simp [pyEq, PyCmp.eq, truthy]
+theorem pyEq_none_right {α} [DecidableEq α] (o : Option α) : pyEq o (Option.none : Option α) = isNone o := by
+  cases o <;> simp [pyEq, PyCmp.eq, isNone]
+/-- `a > b` is `b < a` (same type on both sides) -/
+theorem pyGt_eq_pyLt {α} [POrd α] [DecidableEq α] (a b : α) : pyGt a b = pyLt b a := rfl
+
 /-! ### two loops over the same list that differ in what they do at `break` versus after the loop -/
 
 /-- outcome of one iteration of two loop bodies, relative to the two continuations `K1`, `K2` of the loops: both raise the
@@ -252,12 +385,27 @@ theorem pyLe_eq_not_pyGt {α β} [PyCmp α β] (a : α) (b : β) : pyLe a b = !p
 theorem pyGe_eq_not_pyLt {α β} [PyCmp α β] (a : α) (b : β) : pyGe a b = !pyLt a b := rfl
 theorem pyNe_eq_not_pyEq {α β} [PyCmp α β] (a : α) (b : β) : pyNe a b = !pyEq a b := rfl
 
+/-! ### conditionals -/
 theorem ite_bind {α β} (c : Prop) [Decidable c] (a b : M α) (k : α → M β) :
     (if c then a else b) >>= k = if c then a >>= k else b >>= k := by
   split <;> rfl
 
 theorem ite_eq_false {α} (b : Bool) (x y : α) : (if b = false then x else y) = if b = true then y else x := by
   cases b <;> rfl
+
+/-! ### tactics -/
+
+-- `py_bounded n tac`: run `tac` with a fresh budget of `n` thousand heartbeats; running out of it (or of recursion depth) is an
+-- ordinary failure, so that a portfolio (`first | … | …`) moves on to its next alternative instead of aborting
+open Lean Elab Tactic in
+elab "py_bounded " n:num ppSpace tac:tacticSeq : tactic => do
+  let s ← saveState
+  tryCatchRuntimeEx
+    (withTheReader Core.Context (fun ctx => { ctx with maxHeartbeats := n.getNat * 1000 * 1000 }) <|
+      withCurrHeartbeats <| evalTactic tac)
+    (fun ex => do
+      s.restore
+      throwError "py_bounded: {ex.toMessageData}")
 
 -- the normal-form simp set
 open Lean.Parser.Tactic in
@@ -267,14 +415,19 @@ macro_rules
   | `(tactic| py_norm [$eqs,*]) => do
     let base ← `(tactic| simp only [Py.ok_bind, Py.error_bind, Py.throw_eq_error, pure_bind, bind_assoc, bind_pure, ite_bind,
         pyIter_list, pyAdd_list, pyAdd_int, pyLen_list,
-        listComp_eq_flatComp, forIn_append_only, flatComp_bind_flatten, join_nil_eq_flatten, flatten_map_singleton,
+        listComp_eq_flatComp, forIn_append_only, forIn_store_only, forIn_range_getItem, List.forIn_cons, List.forIn_nil,
+        Dict.updatePairs_nil, Dict.updatePairs_cons, Dict.updatePairs_empty, Dict.update_eq_updatePairs, Dict.items_empty, Dict.items_set_empty,
+        setItem_dict, setItem_attrs, Dict.keys_eq, Dict.values_eq, getItem_pair_zero, getItem_pair_one, getItem_pair_neg_one, getItem_pair_neg_two, pyIter_dict, pyIter_pair, pyIter_graph, pyLen_dict,
+        pyEq_len_zero, pyGt_len_zero, pyLt_zero_len, truthy_len, pyEq_int_zero, pyEq_zero_int, forIn_enumerate_unused, flatComp_enumerate_unused,
+        Int.add_comm, Int.add_left_comm, Int.add_assoc, Int.mul_comm, Int.mul_left_comm, Int.mul_assoc, pyEq_nil_right, pyEq_nil_left, pyEq_none_right, pyGt_eq_pyLt,
+        Bool.not_not, Bool.not_and, Bool.not_or, flatComp_bind_flatten, join_nil_eq_flatten, flatten_map_singleton,
         stepVal_yield, stepVal_done,
         List.append_assoc, List.nil_append, List.append_nil, List.flatten_append, List.flatten_cons, List.flatten_nil,
         Option.toList_some, Option.toList_none, implies_true, Bool.not_eq_true', Bool.not_eq_eq_eq_not, Bool.not_true, Bool.not_false,
         ite_not, ite_eq_false, pyLe_eq_not_pyGt, pyGe_eq_not_pyLt, pyNe_eq_not_pyEq,
         flatComp_pure, flatComp_flatMap, flatComp_map, flatComp_cons, flatComp_nil, flatMap_singleton_eq_map, flatComp_range_getItem,
         startswith_eq_slice, endswith_eq_slice, List.length_cons, List.length_nil, Nat.cast_ofNat, Nat.cast_zero, Nat.cast_add, Nat.cast_one,
-        zero_add, Nat.reduceAdd, Int.reduceAdd, Int.reduceNeg, Prod.mk.eta, List.map_id'])
+        zero_add, Nat.reduceAdd, Int.reduceAdd, Int.reduceNeg, Int.reduceSub, Int.reduceMul, Prod.mk.eta, List.map_id'])
     match base with
     | `(tactic| simp only [$ls,*]) =>
       let all := eqs.getElems.foldl (fun acc e => acc.push ⟨e.raw⟩) ls.getElems
@@ -284,7 +437,7 @@ macro_rules
 -- structural descent for what normalisation leaves: same-shaped programs whose loops differ at `break` / after the loop
 macro "py_descend" : tactic =>
   `(tactic| repeat' (first
-      | rfl
+      | py_bounded 5 rfl
       | (intro _)
       | (apply forIn_bind_congr_cont)
       | (apply forIn_congr_cont)
@@ -296,15 +449,24 @@ macro "py_descend" : tactic =>
       | (apply stepRel_bind_congr)
       | (apply bind_congr_both)))
 
--- `py_equiv [eqs]`: normalise both sides with the callee equalities and the idiom lemmas, then close by reflexivity
+-- `py_equiv [eqs]`: normalise both sides with the callee equalities `eqs` and the idiom lemmas, then close by reflexivity
+-- or by the structural descent. Every stage has its own heartbeat budget (`py_bounded`).
 open Lean.Parser.Tactic in
 syntax "py_equiv" "[" simpLemma,* "]" : tactic
+open Lean in
 macro_rules
-  | `(tactic| py_equiv [$eqs,*]) =>
+  | `(tactic| py_equiv [$eqs,*]) => do
+    let basic ← `(tactic| simp only [Py.ok_bind, Py.error_bind, Py.pure_eq_ok, Py.throw_eq_error, pyIter_list, pyAdd_list, pyAdd_int,
+        pyLen_list])
+    let basic ← match basic with
+      | `(tactic| simp only [$ls,*]) =>
+        let all := eqs.getElems.foldl (fun acc e => acc.push ⟨e.raw⟩) ls.getElems
+        `(tactic| simp only [$all,*])
+      | _ => Macro.throwUnsupported
     `(tactic| first
-        | (simp only [$eqs,*]; rfl)
-        | (simp only [$eqs,*, Py.ok_bind, Py.error_bind, Py.pure_eq_ok, Py.throw_eq_error, pyIter_list, pyAdd_list, pyAdd_int, pyLen_list]; rfl)
-        | (py_norm [$eqs,*]; first | done | rfl | (py_descend; done))
-        | (simp [$eqs,*]))
+        | (simp only [$eqs,*]; py_bounded 10 rfl)
+        | ($basic:tactic; py_bounded 10 rfl)
+        | py_bounded 200 (py_norm [$eqs,*]; first | done | py_bounded 10 rfl | (py_descend; done))
+        | py_bounded 80 (simp [$eqs,*]))
 
 end Py
